@@ -494,4 +494,38 @@ def srun (s : Sync) : List Ev → Sync
   | [] => s
   | e :: es => srun (sstep s e).1 es
 
+/-! ### `SendProcess`'s 4 KB batch buffer
+
+`wire` = the records written to the socket so far, in order; `wbuf` = the records copied into the 4096-byte batch buffer and not
+yet written; `windex` = bytes used in it. One call of `sendRec` is the `if !self.bufferCursor.writed { … }` block of `SendProcess`
+for a record with `d` data bytes (`d = 0`: `data == nil`): a record with data is first preceded by a flush if it does not fit
+(`rule windex d`, in the code `windex + 64 + d > 4096`); if it is larger than the buffer (`64 + d > 4096`) header and data are
+written directly, else it is copied behind the waiting ones; the buffer is flushed when `windex > 4032`; `Pop` = EOF / error
+flushes too (`Batch.flush`). -/
+structure Batch where
+  wire : List Nat
+  wbuf : List Nat
+  windex : Nat
+  deriving Repr, DecidableEq
+
+def Batch.empty : Batch := { wire := [], wbuf := [], windex := 0 }
+
+def Batch.flush (b : Batch) : Batch := { wire := b.wire ++ b.wbuf, wbuf := [], windex := 0 }
+
+/-- the condition as written in replication.go -/
+def codeRule (windex d : Nat) : Bool := decide (windex + 64 + d > 4096)
+
+def sendRec (rule : Nat → Nat → Bool) (b : Batch) (id d : Nat) : Batch :=
+  let b1 : Batch :=
+    if d > 0 then
+      let b0 := if rule b.windex d then b.flush else b
+      if 64 + d > 4096 then { b0 with wire := b0.wire ++ [id] }
+      else { b0 with wbuf := b0.wbuf ++ [id], windex := b0.windex + 64 + d }
+    else { b with wbuf := b.wbuf ++ [id], windex := b.windex + 64 }
+  if b1.windex > 4032 then b1.flush else b1
+
+def sendAll (rule : Nat → Nat → Bool) : Batch → List (Nat × Nat) → Batch
+  | b, [] => b
+  | b, (id, d) :: rs => sendAll rule (sendRec rule b id d) rs
+
 end Slock.Repl
